@@ -14,6 +14,31 @@ gomod = open(os.path.join(repo, "go.mod")).read()
 extra = "\nrequire github.com/anishathalye/porcupine v1.3.0\n"
 if "anishathalye/porcupine" not in gomod:
     gomod += extra
+# crawshaw.io/sqlite panics from a finalizer when a Conn is garbage collected
+# unclosed. LoadLog leaks its cache connections on its error paths (harmless in
+# production, where the process exits); in the simulator the "process" is an
+# object, so in the harness build the finalizer closes the connection instead
+# of panicking. Module-cache files cannot be overlaid, hence a patched copy of
+# the module and a replace directive in the -modfile copy.
+m = re.search(r'crawshaw\.io/sqlite (\S+)', gomod)
+if m:
+    modcache = os.environ.get("GOMODCACHE") or os.path.join(os.environ.get("GOPATH") or os.path.expanduser("~/go"), "pkg", "mod")
+    srcdir = os.path.join(modcache, "crawshaw.io", "sqlite@" + m.group(1))
+    dst = os.path.join(bdir, "depgen", "crawshaw-sqlite")
+    if os.path.isdir(srcdir):
+        if not os.path.exists(os.path.join(dst, ".done-" + m.group(1))):
+            shutil.rmtree(dst, ignore_errors=True)
+            shutil.copytree(srcdir, dst)
+            os.system("chmod -R u+w '%s'" % dst)
+            f = os.path.join(dst, "sqlite.go")
+            code = open(f).read()
+            pat = re.compile(r'panic\(file \+ ":" \+ string\(itoa\(buf\[:\], int64\(line\)\)\) \+ ": \*sqlite\.Conn for " \+ path \+ " garbage collected, call Close method"\)')
+            if not pat.search(code):
+                print("mkoverlay: crawshaw finalizer not found", file=sys.stderr)
+                sys.exit(2)
+            open(f, "w").write(pat.sub('_, _, _ = buf, file, line; conn.Close()', code))
+            open(os.path.join(dst, ".done-" + m.group(1)), "w").write("ok")
+        gomod += "\nreplace crawshaw.io/sqlite => %s\n" % dst
 modpath = os.path.join(bdir, "go.mod")
 old = open(modpath).read() if os.path.exists(modpath) else None
 if old != gomod:
